@@ -13,7 +13,7 @@ from . import gen
 def plan(tier, seed, *, quick_cells=12, thorough_cells=16, thorough_shapes=((4, 5), (5, 4)),
          thorough_multisets=((5, 5), (6, 4)), quick_multisets=(),
          hyp_quick=(12, 250), hyp_thorough=(16, 2500), profiles=('small', 'medium'),
-         block=4096, wide=False, fixed=()):
+         block=4096, wide=False, mid=True, fixed=()):
     tasks = []
     if tier == 'quick':
         tasks += gen.exhaustive_blocks(quick_cells, block=block)
@@ -37,6 +37,11 @@ def plan(tier, seed, *, quick_cells=12, thorough_cells=16, thorough_shapes=((4, 
         for k in range(max(2, shards // 4)):
             tasks.append({'kind': 'hyp', 'profile': 'wide', 'examples': max(50, examples // 4),
                           'shard': 100 + k, 'seed': seed * 1000 + 100 + k})
+    if mid:
+        n_mid, ex_mid = (3, 12) if tier == 'quick' else (8, 150)
+        for k in range(n_mid):
+            tasks.append({'kind': 'hyp', 'profile': 'mid', 'examples': ex_mid, 'shard': 200 + k,
+                          'seed': seed * 1000 + 200 + k})
     for f in fixed:
         tasks.append({'kind': 'fixed', 'name': f})
     return gen.balance(tasks, weight=_weight)
@@ -46,7 +51,7 @@ def _weight(t):
     if t['kind'] in ('exhaustive', 'multiset'):
         return (t['stop'] - t['start']) * (1 + t['n'] * t['m'] / 8)
     if t['kind'] == 'hyp':
-        return t['examples'] * 12
+        return t['examples'] * (400 if t.get('profile') == 'mid' else 12)
     return 10 ** 9  # fixed tasks first
 
 
@@ -79,10 +84,12 @@ def run(task, ctx, check_one, strategy_of=None, fixed_cases=None):
         ctx.guarded(loop)
         ctx.count('multiset_tables', task['stop'] - task['start'])
     elif kind == 'hyp':
-        if strategy_of is not None:
+        if strategy_of is not None and task['profile'] not in ('wide', 'mid'):
             strat = strategy_of(task)
         elif task['profile'] == 'wide':
             strat = gen.wide_tables()
+        elif task['profile'] == 'mid':
+            strat = gen.mid_tables()
         else:
             strat = gen.tables(task['profile'])
         ctx.hypothesis(lambda case: check_one(case, ctx, True), strat,
